@@ -100,6 +100,12 @@ def _gen_mode(rng, prog, kind, n_events, horizon_ns):
     elif kind == "M6":
         mode["control"] = mode["hooks"] = True
         mode["bps"] = [_bp_spec(rng, prog["n_ent"], horizon_ns, n_events) for _ in range(rng.randrange(1, 4))]
+        if rng.random() < 0.5:
+            # no breakpoint registered when run() is entered; all are armed from an event hook during the run
+            mode["hook_bps"] = [{"at": rng.randrange(1, max(2, n_events)), "bp": b} for b in mode["bps"]]
+            mode["bps"] = []
+        elif rng.random() < 0.3:
+            mode["hook_bps"] = [{"at": rng.randrange(1, max(2, n_events)), "bp": _bp_spec(rng, prog["n_ent"], horizon_ns, n_events)}]
         for _ in range(rng.randrange(0, 3)):
             mode["script"].append({"op": "add_bp", "bp": _bp_spec(rng, prog["n_ent"], horizon_ns, n_events)})
             mode["script"].append({"op": "resume"})
@@ -149,13 +155,16 @@ def gen_reset(rng: random.Random, tier: str) -> dict:
 class _BP:
     """Harness model of one breakpoint: predicate over the delivery record."""
 
-    def __init__(self, spec):
+    def __init__(self, spec, since=0):
         self.spec = spec
         self.one_shot = spec["one_shot"]
+        self.since = since  # applies to deliveries numbered > since (1-based)
 
     def holds(self, d) -> bool:
         s = self.spec
         k = s["k"]
+        if d["i"] <= self.since:
+            return False
         if k in ("time", "cond-time"):
             return d["t"] >= s["t"]
         if k == "count":
@@ -212,13 +221,15 @@ def drive(prog, mode, res: Result | None = None, check_positions: bool = True, b
         ctl = sim.control
         deliveries: list[dict] = []
         since_resume = [0]
-        if mode.get("hooks") or mode.get("hook_pause_at") is not None or mode.get("bps") or any(c["op"] == "add_bp" for c in mode["script"]):
+        active: list[_BP] = []
+        if mode.get("hooks") or mode.get("hook_pause_at") is not None or mode.get("bps") or mode.get("hook_bps") or any(c["op"] == "add_bp" for c in mode["script"]):
             k_pause = mode.get("hook_pause_at")
 
             def on_event(ev):
                 st_n = sim._events_processed  # same number BreakpointContext.events_processed exposes
                 deliveries.append(
                     {
+                        "i": len(deliveries) + 1,
                         "n": st_n,
                         "t": sim._clock.now.nanoseconds,
                         "type": ev.event_type,
@@ -227,6 +238,12 @@ def drive(prog, mode, res: Result | None = None, check_positions: bool = True, b
                 )
                 if k_pause is not None and len(deliveries) == k_pause:
                     ctl.pause()
+                for hb in mode.get("hook_bps") or []:
+                    if hb["at"] == len(deliveries):
+                        # a breakpoint armed from inside the run (event hook), while the loop is executing
+                        nb = _BP(hb["bp"], since=len(deliveries) - 1)
+                        ctl.add_breakpoint(nb.build())
+                        active.append(nb)
 
             ctl.on_event(on_event)
 
@@ -234,7 +251,6 @@ def drive(prog, mode, res: Result | None = None, check_positions: bool = True, b
                 info["time_hook_calls"] += 1
 
             ctl.on_time_advance(on_time)
-        active: list[_BP] = []
         for spec in mode.get("bps") or []:
             bp = _BP(spec)
             ctl.add_breakpoint(bp.build())
@@ -270,7 +286,7 @@ def drive(prog, mode, res: Result | None = None, check_positions: bool = True, b
                 ctl.step(cmd["n"])
                 after = ctl.get_state()
                 info["steps_checked"] += 1
-                if res is not None and not mode.get("bps") and mode.get("hook_pause_at") is None and not any(c["op"] == "add_bp" for c in script):
+                if res is not None and not mode.get("bps") and mode.get("hook_pause_at") is None and not mode.get("hook_bps") and not any(c["op"] == "add_bp" for c in script):
                     got = after.events_processed - before
                     if got != cmd["n"] and (after.is_running or got > cmd["n"]):
                         res.add(
@@ -289,7 +305,7 @@ def drive(prog, mode, res: Result | None = None, check_positions: bool = True, b
                 ctl.pause()
                 ctl.resume()
             elif op == "add_bp":
-                bp = _BP(cmd["bp"])
+                bp = _BP(cmd["bp"], since=len(deliveries))
                 ctl.add_breakpoint(bp.build())
                 active.append(bp)
         if only_bps and res is not None and check_positions:
@@ -626,6 +642,44 @@ def run_pipeline(case: dict) -> Result:
                         det = f"{k}: first difference at {i}: {a[i] if i < len(a) else None} vs {b[i] if i < len(b) else None} (lengths {len(a)}/{len(b)})"
                     res.add("library-pipeline-differs", comp, f"{mode['kind']}-{k}", det, witness={"mode": mode})
                     break
+        # reset()+run() with sources and probes in the model: pre-run events scheduled on exactly the first tick
+        # instants of the source / probe must keep their tie order in the replay
+        def tied_pipeline():
+            from happysimulator import Event
+
+            pl = Pipeline(spec)
+            sim = pl.make()
+            firsts = sorted({e.time.nanoseconds for e in sim._event_heap._heap})
+            from happysimulator.core.temporal import Instant
+
+            for j, t in enumerate(firsts[:2]):
+                sim.schedule(Event(time=Instant(t), event_type="Request", target=pl.parts["srv"], context={"created_at": Instant(t), "request_id": -1 - j}))
+            return pl, sim
+
+        def reset_go():
+            n0 = len(p.deliveries)
+            pl, sim = tied_pipeline()
+            sim.run()
+            box["fresh"] = [d[1:5] for d in p.deliveries[n0:]]
+            pl, sim = tied_pipeline()
+            sim.run()
+            n1 = len(p.deliveries)
+            sim.control.reset()
+            # a reset does not reset the (stateful) library components; rebuild the comparison on a pristine
+            # pipeline is impossible, so only the tie order at the first instants is compared
+            sim.run()
+            box["again"] = [d[1:5] for d in p.deliveries[n1:]]
+
+        # only with a deterministic (constant-rate) source: a Poisson source legitimately draws a new first arrival
+        if not spec["poisson"] and p.run(None, reset_go) == "completed":
+            res.count("resets_with_sources_compared")
+            first_t = box["fresh"][0][0] if box["fresh"] else None
+            # the server is stateful (queue, in-flight work), so only the order in which the source tick and the
+            # tied pre-run arrivals reach their targets at the first instant is compared
+            a = [x for x in box["again"] if x[0] == first_t and x[2] in ("Source", "srv", "probe", "ticks")]
+            b = [x for x in box["fresh"] if x[0] == first_t and x[2] in ("Source", "srv", "probe", "ticks")]
+            if a != b:
+                res.add("reset-replay-differs", "SimulationControl", "tie-between-source-tick-and-pre-run-event", f"first instant after reset {a} vs original {b}")
         res.count("events_monitored", p.n_deliveries)
         res.nontrivial = len(base_out["deliveries"]) >= 20 and inside > 0
         if inside:
